@@ -338,7 +338,8 @@ func hTimeoutGrpcTooLong() {
 // deadlines including zero - floating point formatting is not encoded symbolically, so this slice is by value:
 // the header is present whenever the client set a deadline, reads back as a duration, and never exceeds it.
 func hTimeoutRESTFixed() {
-	durations := []time.Duration{0, time.Nanosecond, time.Millisecond, 1500 * time.Millisecond, time.Second, 90 * time.Minute, 8 * time.Hour}
+	durations := []time.Duration{0, time.Nanosecond, time.Millisecond, 1500 * time.Millisecond, time.Second, 90 * time.Minute, 8 * time.Hour,
+		1500 * time.Nanosecond, 1999999999 * time.Nanosecond, 2*time.Hour + 999999999*time.Nanosecond} // (values that a fixed number of decimals would round up)
 	d := durations[verifChoose("deadline", len(durations))]
 	has := verifChoose("hasTimeout", 2) == 1
 	out := http.Header{}
